@@ -2,7 +2,7 @@ package main
 
 // Which harnesses decide which property, with which bounds, per tier.
 
-var c01ids = []string{"no-panic", "string-no-marker", "gostring-no-marker", "terminates-within-budget"}
+var c01ids = []string{"no-panic", "string-no-marker", "gostring-no-marker", "json-no-marker", "terminates-within-budget"}
 var c10ids = []string{"parse-xor", "validates", "shape", "render-xor", "param-error-empty"}
 
 func withOnly(rs []hrun, only []string, panics bool) []hrun {
